@@ -12,7 +12,7 @@ class C40(vlib.Spec):
     theorems = ["C40_raft_term_monotone", "C40_raft_vote_once_per_term", "C40_raft_commit_monotone",
                 "C40_raft_election_safety", "C40_raft_leader_append_only", "C40_raft_sms_partial", "C40_raft_log_wf",
                 "C40_raft_committed_prefix_stable", "C40_raft_leader_commit_rule", "C40_raft_log_matching",
-                "C40_raft_sms_from_leader_completeness", "C40_raft_vote_restriction", "C40_paxos_safety",
+                "C40_raft_sms_from_leader_completeness", "C40_raft_vote_restriction", "C40_raft_log_terms_monotone", "C40_paxos_safety",
                 "C40_paxos_recommit_obeys_pick"]
     crate, group, binary = "h_raft", "hydro", "h_raft"
     imports = "From HV Require Import Proto.RaftNet.\nFrom HV Require Proto.PaxosCheck."
@@ -40,7 +40,8 @@ class C40(vlib.Spec):
         "(<=1 leader per term, quorum intersection), Leader Append-Only, log well-formedness, and stability of each "
         "member's own committed prefix (the a=b diagonal of SMS) (see theorems). "
         "State Machine Safety (C40_raft_sms) is stated in full but not proved; Log Matching is proved (per-term ghost leader logs), and so is the reduction "
-        "'SMS follows from Leader Completeness' (C40_raft_sms_from_leader_completeness); missing: Leader Completeness itself (LCstar). "
+        "'SMS follows from Leader Completeness' (C40_raft_sms_from_leader_completeness); missing: Leader Completeness itself (LCstar); supporting lemmas proved: vote restriction, log terms "
+        "non-decreasing and bounded by the current term. "
         "Every run additionally compares the real raft_step field by field with the model on generated calls and "
         "evaluates election safety / log matching / SMS on whole cluster runs executed with the real raft_step. "
         "Paxos: abstract multi-Paxos safety (one value per slot) is proved (C40_paxos_safety); the code tie is "
